@@ -11,6 +11,7 @@ from ..tlc import TLCError, require_ok, run_tlc
 
 use_repo()
 from iOpt.evolvent.evolvent import Evolvent  # noqa: E402
+from ..evolvent_drv import scribbled  # noqa: E402
 
 
 def obj_cfg(ci, co, ip, ml, xs, ys, kinds, hist=False):
@@ -150,10 +151,13 @@ def replay_history(rec, hist, n, m):
         if op in ("new", "setbounds"):
             a, b = BOX[st["c"]]
             lo, up = [a] * n, [b] * n
-            if op == "new":
-                ev = Evolvent(lo, up, n, m)
+            la, ua, scribble = scribbled(lo, up)      # the caller's arrays are (sometimes) overwritten after configuration:
+            if op == "new":                           # results for one configuration must not depend on that (the memo is per configuration)
+                ev = Evolvent(la, ua, n, m)
             else:
-                ev.SetBounds(lo, up)
+                ev.SetBounds(la, ua)
+            if (len(rec.events) + st.get("c", 0)) % 2 == 0:
+                scribble()
             rec.cfg(op, n, m, lo, up)
         elif op == "image":
             rec.image(ev, XVAL[st["x"]])
@@ -164,14 +168,17 @@ def replay_history(rec, hist, n, m):
 
 
 def random_history(rec, rng, length):
-    from ..evolvent_drv import rand_box
+    from ..evolvent_drv import scribbled,  rand_box
     rec.reset()
     n = rng.choice([1, 1, 2, 2, 3, 4, 5])
     m = rng.randint(2, min(12, 50 // n))
     objs = []
     for _ in range(rng.choice([1, 1, 2])):
         lo, up = rand_box(rng, n)
-        objs.append([Evolvent(lo, up, n, m), lo, up])
+        la, ua, scribble = scribbled(lo, up)
+        objs.append([Evolvent(la, ua, n, m), lo, up])
+        if rng.random() < 0.5:
+            scribble()
         rec.cfg("new", n, m, lo, up)
     xs = [rng.random() for _ in range(4)] + [0.0, 1.0, 0.5, 0.75]
     boxes = [rand_box(rng, n) for _ in range(2)] + [(o[1], o[2]) for o in objs]
@@ -209,7 +216,10 @@ def random_history(rec, rng, length):
                 arrays.append(arg)
         else:
             lo2, up2 = rng.choice(boxes)
-            ev.SetBounds(lo2, up2)
+            la, ua, scribble = scribbled(lo2, up2)
+            ev.SetBounds(la, ua)
+            if rng.random() < 0.5:
+                scribble()
             o[1], o[2] = list(lo2), list(up2)
             rec.cfg("setbounds", n, m, lo2, up2)
 
